@@ -132,7 +132,7 @@ the declared result type" — is an identity, a queued `TypeEqual` (`rel`), a qu
 binder of the table, an instance made by `inst_ty`, a component of a syntactic tuple type.  By induction over the
 mutual recursor of `IExpr` (`Lemmas/InferJustGo.lean::go_just`). -/
 theorem genFn_justified {G params ret body σ0 t s} (h : genFn G params ret body σ0 = some (t, s)) (hd : s.diags = [])
-    {B} (hB : BinderTable B params t) :
+    (hin : s.outside = false) {B} (hB : BinderTable B params t) :
     JL B G.funs s.cs (obls t ++ [.rel t.ty ret]) := by
   unfold genFn at h
   obtain ⟨t1, Γ1, s1, h1, l1⟩ := go_le body (some ret) G (insertParams params (pushScope [[]]))
@@ -145,7 +145,7 @@ theorem genFn_justified {G params ret body σ0 t s} (h : genFn G params ret body
     intro sc hm p hp
     simp only [pushScope, List.mem_cons, List.not_mem_nil, or_false] at hm
     rcases hm with e | e <;> subst e <;> cases hp
-  obtain ⟨_, j, x⟩ := go_just body (some ret) G _ _ t1 Γ1 s1 h1 (lp.nodiag hd) B hB.right hE
+  obtain ⟨_, j, x⟩ := go_just body (some ret) G _ _ t1 Γ1 s1 h1 (lp.nodiag ⟨hd, hin⟩) B hB.right hE
   exact JL.append (j.mono lp) (JL.one (Or.inr (lp.mem _ (x ret rfl))))
 
 /-- **Acceptance is type-sound** (fragment of `Model/Infer.lean`).  If `typecheck_fn` ends WITHOUT ANY DIAGNOSTIC — none
@@ -156,11 +156,14 @@ identical, or agreeing normal forms — equal up to array lengths one of which i
 instance of its signature, every callee has the function type made of the argument types and the type of the call,
 conditions are `bool`, branches / arms / operands / `let` values / patterns agree, projections select a component; and the
 body has the declared result type.  No certificate: `genFn_justified` + `solve_eq_sound`.
+`hin` (`r.gen.outside = false`, a ghost flag of the run, decidable): generation did not go through a method-call form
+(`x.m(a)`, `T::m(x, a)`) or an array literal — these are modelled and tied (round 11, third pass) but have no declarative
+rule yet; for them only `infer_total` / `infer_store_invariant` hold.
 A field access `e.f : r` is judged by `F`: here only "its `StructFieldAccess(e, f, r)` was queued and `solve` ended
 without a diagnostic and with an empty queue"; what that MEANS (r is the instantiated field type) is
 not stated yet (see DESIGN, Limits). -/
 theorem infer_sound {G fuel params ret body σ0 r}
-    (h : inferFn G fuel params ret body σ0 = .ok r) (hd : r.diags = []) (hW : WF σ0)
+    (h : inferFn G fuel params ret body σ0 = .ok r) (hd : r.diags = []) (hin : r.gen.outside = false) (hW : WF σ0)
     {B} (hB : BinderTable B params r.tree) :
     WtF (AgreeIn r.σ) (fun e f res => Constraint.field e f res ∈ r.gen.cs) B G.funs r.tree ∧
     AgreeIn r.σ r.tree.ty ret := by
@@ -191,7 +194,7 @@ theorem infer_sound {G fuel params ret body σ0 r}
         intro a b hm
         obtain ⟨x, y, ⟨f1, hx⟩, ⟨g1, hy⟩, ha⟩ := solve_eq_sound w hs a b hm
         exact Or.inr ⟨f1, g1, x, y, hx, hy, ha⟩
-      have hj := genFn_justified hg hd.1 hB
+      have hj := genFn_justified hg hd.1 hin hB
       have conv : ∀ o, J B G.funs s.cs o → HoldsF (AgreeIn σ') (fun e f res => Constraint.field e f res ∈ s.cs) B G.funs o := by
         intro o ho
         cases o with
@@ -209,10 +212,10 @@ theorem infer_sound {G fuel params ret body σ0 r}
 
 /-- for a body without field accesses this is `Wt` outright -/
 theorem infer_sound_nofield {G fuel params ret body σ0 r}
-    (h : inferFn G fuel params ret body σ0 = .ok r) (hd : r.diags = []) (hW : WF σ0)
+    (h : inferFn G fuel params ret body σ0 = .ok r) (hd : r.diags = []) (hin : r.gen.outside = false) (hW : WF σ0)
     {B} (hB : BinderTable B params r.tree) (nf : ∀ e f res, Obl.fld e f res ∉ obls r.tree) :
     Wt (AgreeIn r.σ) B G.funs r.tree ∧ AgreeIn r.σ r.tree.ty ret := by
-  obtain ⟨h1, h2⟩ := infer_sound h hd hW hB
+  obtain ⟨h1, h2⟩ := infer_sound h hd hin hW hB
   refine ⟨?_, h2⟩
   intro o ho
   have := h1 o ho
